@@ -321,6 +321,35 @@ fn composites(st: &mut St) {
             }
         }
     }
+    // long lists (elements of varying width and sign, well beyond any small staging buffer)
+    for len in 0..=48usize {
+        let v: Vec<i32> = (0..len as i32).map(mc::ifaces::list_element).collect();
+        let val = Val::Seq(v.iter().map(|&x| Val::Int(x as i128)).collect());
+        let sl: &[i32] = &v;
+        check_value(st, &sl, &val, "&[i32]", rp("&[i32]"), &[len as u8]);
+        let hv: heapless::Vec<i32, 48> = heapless::Vec::from_slice(&v).unwrap();
+        check_value(st, &hv, &val, "heapless::Vec<i32,48>", rp("heapless::Vec<i32,48>"), &[len as u8]);
+        let fv: Vec<f64> = v.iter().map(|&x| x as f64 / 8.0).collect();
+        let fval = Val::Seq(fv.iter().map(|x| Val::F64(x.to_bits())).collect());
+        let fs: &[f64] = &fv;
+        check_value(st, &fs, &fval, "&[f64]", rp("&[f64]"), &[len as u8]);
+        let names: Vec<String> = (0..len).map(|i| format!("channel {i}{}", if i % 3 == 0 { " \"x\"" } else { "" })).collect();
+        let sv: Vec<&str> = names.iter().map(|x| x.as_str()).collect();
+        let sval = Val::Seq(sv.iter().map(|x| vs(x)).collect());
+        let ss: &[&str] = &sv;
+        check_value(st, &ss, &sval, "&[&str]", rp("&[&str]"), &[len as u8]);
+        let tv: Vec<(i32, bool)> = v.iter().map(|&x| (x, x > 0)).collect();
+        let tval = Val::Seq(tv.iter().map(|x| Val::Seq(vec![Val::Int(x.0 as i128), Val::Bool(x.1)])).collect());
+        let ts: &[(i32, bool)] = &tv;
+        check_value(st, &ts, &tval, "&[(i32,bool)]", rp("&[(i32,bool)]"), &[len as u8]);
+    }
+    // a pad of 0..=255 characters in front of a negative integer, a negative real and a string
+    for p in 0..=255usize {
+        let pad = "x".repeat(p);
+        let hs: heapless::String<255> = heapless::String::try_from(pad.as_str()).unwrap();
+        let val = Val::Seq(vec![vs(&pad), Val::Int(-12345), Val::F32((-0.5f32).to_bits()), vs("q\"q")]);
+        check_value(st, &(hs, -12345i32, -0.5f32, "q\"q"), &val, "(String,i32,f32,&str)", rp("(String,i32,f32,&str)"), &[p as u8]);
+    }
     // slices and heapless vectors of length 0..3
     for len in 0..=3usize {
         mc::util::product(ints.len(), len, |idx| {
@@ -366,6 +395,31 @@ struct U {
     resp: Option<Val>,
     /// the unit is faulty (one error is reported)
     fault: bool,
+}
+
+/// Units of the response-length sweeps through run: `PAD? p` for every p, `LIST? n` for every n,
+/// and three fixed units to combine them with.
+fn pad_units() -> Vec<U> {
+    let mut v = vec![];
+    for p in 0..=255usize {
+        let pad = "x".repeat(p);
+        v.push(U {
+            text: Box::leak(format!(":PAD? {p}").into_boxed_str()),
+            resp: Some(Val::Seq(vec![vs(&pad), Val::Int(-12345), Val::F32((-0.5f32).to_bits()), vs("q\"q")])),
+            fault: false,
+        });
+    }
+    for n in 0..=64i32 {
+        v.push(U {
+            text: Box::leak(format!(":LIST? {n}").into_boxed_str()),
+            resp: Some(Val::Seq((0..n).map(|i| Val::Int(mc::ifaces::list_element(i) as i128)).collect())),
+            fault: false,
+        });
+    }
+    v.push(U { text: ":I64?", resp: Some(Val::Int(i64::MIN as i128)), fault: false });
+    v.push(U { text: ":FAIL?", resp: None, fault: true });
+    v.push(U { text: ":CMD", resp: None, fault: false });
+    v
 }
 
 fn units() -> Vec<U> {
@@ -416,6 +470,10 @@ fn chunks() -> (Vec<Vec<u8>>, Vec<u8>, usize) {
 }
 
 fn check_message(st: &mut St, us: &[U], idx: &[usize]) {
+    check_message_part(st, us, idx, "run")
+}
+
+fn check_message_part(st: &mut St, us: &[U], idx: &[usize], part: &'static str) {
     st.values += 1;
     let mut msg: Vec<u8> = vec![];
     for (k, &i) in idx.iter().enumerate() {
@@ -445,7 +503,7 @@ fn check_message(st: &mut St, us: &[U], idx: &[usize]) {
             let f = vec![("kind", "heapless-writer-holds-other-bytes-than-the-pass-through-writer".to_string()), ("units", idx.len().to_string())];
             st.groups.add("run-responses", &f, (msg.len(), &msg), || {
                 (
-                    json!({"part": "run", "message": hex(&msg), "units": idx}),
+                    json!({"part": part, "message": hex(&msg), "units": idx}),
                     format!("run(\"{}\"): heapless::Vec<u8,1024> holds \"{}\", the pass-through writer received \"{}\"", show(&msg), show(&hw), show(&passthrough)),
                 )
             });
@@ -487,7 +545,7 @@ fn check_message(st: &mut St, us: &[U], idx: &[usize]) {
                     ];
                     st.groups.add("run-responses", &f, (msg.len() * 100 + cap, &msg), || {
                         (
-                            json!({"part": "run", "message": hex(&msg), "units": idx, "capacity": cap}),
+                            json!({"part": part, "message": hex(&msg), "units": idx, "capacity": cap}),
                             format!(
                                 "run(\"{}\") into heapless::Vec<u8,{cap}>: the writer holds \"{}\"; responses are {:?}, so \"{}\" (or \"{}\") is specified: each response completely or not at all",
                                 show(&msg), show(&held), ch.iter().map(|c| show(c)).collect::<Vec<_>>(), show(&greedy), show(&until_first)
@@ -540,7 +598,7 @@ fn check_message(st: &mut St, us: &[U], idx: &[usize]) {
         ];
         st.groups.add("run-responses", &f, (msg.len(), &msg), || {
             (
-                json!({"part": "run", "message": hex(&msg), "units": idx}),
+                json!({"part": part, "message": hex(&msg), "units": idx}),
                 format!(
                     "run(\"{}\"): flushed responses {:?}, unflushed tail \"{}\", {nerr} errors; {}",
                     show(&msg),
@@ -567,6 +625,11 @@ fn replay(path: &str) -> ! {
             "blk" | "chars" | "blklen" => blocks(&mut st, true),
             "int32" => int32_part(&mut st, w["hi"].as_u64().unwrap() as u32, w["thorough"].as_bool().unwrap()),
             "composite" => composites(&mut st),
+            "runpad" => {
+                let us = pad_units();
+                let idx: Vec<usize> = w["units"].as_array().unwrap().iter().map(|v| v.as_u64().unwrap() as usize).collect();
+                check_message_part(&mut st, &us, &idx, "runpad");
+            }
             "run" => {
                 let us = units();
                 let idx: Vec<usize> = w["units"].as_array().unwrap().iter().map(|v| v.as_u64().unwrap() as usize).collect();
@@ -615,7 +678,10 @@ fn main() {
     let n_str = strs.len().div_ceil(512);
     let nu = us.len();
     let n_int = 256usize;
-    let n_parts = 1 + n_f32 + n_f64 + n_str + nu + n_int;
+    let usp = pad_units();
+    let n_pad = usp.len() - 3;
+    let usp_ref = &usp;
+    let n_parts = 1 + n_f32 + n_f64 + n_str + nu + n_int + n_pad;
     let strs_ref = &strs;
     let mants_ref = &mants64;
     let us_ref = &us;
@@ -658,6 +724,13 @@ fn main() {
             for s in strs_ref[b * 512..].iter().take(512) {
                 string_case(st, s);
             }
+        } else if p >= 1 + n_f32 + n_f64 + n_str + nu + n_int {
+            let i = p - (1 + n_f32 + n_f64 + n_str + nu + n_int);
+            let (i64q, fail, cmd) = (usp_ref.len() - 3, usp_ref.len() - 2, usp_ref.len() - 1);
+            check_message_part(st, usp_ref, &[i], "runpad");
+            check_message_part(st, usp_ref, &[i64q, i], "runpad");
+            check_message_part(st, usp_ref, &[i, fail], "runpad");
+            check_message_part(st, usp_ref, &[cmd, i, i], "runpad");
         } else if p >= 1 + n_f32 + n_f64 + n_str + nu {
             int32_part(st, (p - 1 - n_f32 - n_f64 - n_str - nu) as u32, thorough);
         } else {
